@@ -168,6 +168,17 @@ Definition owed_g (rp : bool) (b : beh) : list bool :=
   | BErr | BPanic => [true]
   | BNever => []
   | BOkBad => [rp]   (* a result the completion function cannot deliver (it panics): an error instead *)
+  | BDefer => []     (* owed later: the handler kept the completion function *)
+  | BOkDefer => [false]
+  | BDeferPanic => [true]
+  end.
+
+(* does the call leave a completion function behind in the handler, and in which guard state:
+   only a good call of a request-shaped method that was given one *)
+Definition spec_keeps (v : verdict) (cb : bool) (b : beh) : option bool :=
+  match v with
+  | VGood mt _ => if cb && is_request mt then keeps b else None
+  | VFail => None
   end.
 Definition owed : beh -> list bool := owed_g false.
 
@@ -258,6 +269,14 @@ Definition demand_disp (ess : list (list eopt)) (rid : Z) (route : str) (dec : l
   (if is_empty route then trace_eqb inv []   (* no route: not an API call; only "nothing runs, no panic" *)
    else demand_routed ess (negb (rid =? 0)) route dec cx b inv rsps).
 
+Definition spec_disp_keeps (ess : list (list eopt)) (rid : Z) (route : str) (dec : list (Z * dres))
+  (cx : ctxv) (b : beh) : option bool :=
+  if is_empty route then None
+  else match first_resolving ess route with
+       | None => None
+       | Some es => spec_keeps (expect_ser es SProto route dec cx) (negb (rid =? 0)) b
+       end.
+
 Definition f4_disp (ess : list (list eopt)) (rid : Z) (route : str) (dec : list (Z * dres)) : bool :=
   negb (is_empty route) &&
   match first_resolving ess route with
@@ -266,33 +285,64 @@ Definition f4_disp (ess : list (list eopt)) (rid : Z) (route : str) (dec : list 
   end.
 
 (* ---- histories: the spec's own state is, per collection, (registered entries, entries at the
-   last Build) ---- *)
+   last Build), plus the completion functions kept by handlers - each belonging to ITS call - and the
+   position in the history ---- *)
 Record scol := SS { ss_reg : list eopt; ss_built : list eopt }.
-Definition sst := Z -> scol.
-Definition sinit : sst := fun _ => SS [] [].
-Definition supd (s : sst) (k : Z) (v : scol) : sst := fun j => if j =? k then v else s j.
+Record sst := SG { sg_cols : Z -> scol; sg_pend : list pend; sg_pos : Z }.
+Definition sinit : sst := SG (fun _ => SS [] []) [] 0.
+Definition scol_of (s : sst) (k : Z) : scol := sg_cols s k.
+Definition supd (f : Z -> scol) (k : Z) (v : scol) : Z -> scol := fun j => if j =? k then v else f j.
+
+Definition builts (s : sst) (ks : list Z) : list (list eopt) := map (fun k => ss_built (scol_of s k)) ks.
 
 Definition sstep (s : sst) (o : op) : sst :=
+  let next cols pend := SG cols pend (sg_pos s + 1) in
   match o with
-  | OReg k e op_ => supd s k (SS (ss_reg (s k) ++ [(e, op_)]) (ss_built (s k)))
-  | OBuild k => supd s k (SS (ss_reg (s k)) (ss_reg (s k)))
-  | _ => s
+  | OReg k e op_ =>
+      next (supd (sg_cols s) k (SS (ss_reg (scol_of s k) ++ [(e, op_)]) (ss_built (scol_of s k)))) (sg_pend s)
+  | OBuild k => next (supd (sg_cols s) k (SS (ss_reg (scol_of s k)) (ss_reg (scol_of s k)))) (sg_pend s)
+  | OCallSer k sr r _ dec c cb b =>
+      next (sg_cols s)
+           (sg_pend s ++ kept (KCall (sg_pos s)) (spec_keeps (expect_ser (ss_built (scol_of s k)) sr r dec c) cb b))
+  | OCall k r a c cb b =>
+      next (sg_cols s)
+           (sg_pend s ++ kept (KCall (sg_pos s)) (spec_keeps (expect_call (ss_built (scol_of s k)) r c a) cb b))
+  | ODispatch ks rid r _ dec _ cx b =>
+      next (sg_cols s) (sg_pend s ++ kept (KReq rid) (spec_disp_keeps (builts s ks) rid r dec cx b))
+  | OFire n kd =>
+      if n <? 0 then next (sg_cols s) (sg_pend s)
+      else let '(_, _, l) := fire_nth (sg_pend s) (Z.to_nat n) kd in next (sg_cols s) l
+  | _ => next (sg_cols s) (sg_pend s)
   end.
 
-Definition builts (s : sst) (ks : list Z) : list (list eopt) := map (fun k => ss_built (s k)) ks.
+Definition fev_eqb (a b : fev) : bool :=
+  match a, b with
+  | FCall p e, FCall p' e' => Z.eqb p p' && Bool.eqb e e'
+  | FRsp r x, FRsp r' x' => Z.eqb r r' && rsp_eqb x x'
+  | _, _ => false
+  end.
+Definition fevs_eqb : list fev -> list fev -> bool := list_eqb fev_eqb.
+
+(* running the n-th kept completion function: it answers ITS OWN call (the recorder of the call at
+   that position / the peer's request of that id), with what it is run with, once: nothing when
+   that call was already completed; nothing at all when there is no such function *)
+Definition demand_fire (s : sst) (n : Z) (kd : fkind) (d : list fev) (esc : bool) : bool :=
+  if n <? 0 then fevs_eqb d [] && negb esc
+  else let '(d', e', _) := fire_nth (sg_pend s) (Z.to_nat n) kd in fevs_eqb d d' && Bool.eqb esc e'.
 
 Definition op_ok (s : sst) (o : op) (b : obs) : bool :=
   match o, b with
   | OReg _ _ _, BUnit => true
   | OBuild _, BUnit => true
   | OHas k r, BBool x =>
-      Bool.eqb x (match resolve (ss_built (s k)) r with Some _ => true | None => false end)
+      Bool.eqb x (match resolve (ss_built (scol_of s k)) r with Some _ => true | None => false end)
   | OArgT k r, BArg t =>
-      oz_eqb t (match resolve (ss_built (s k)) r with Some mt => Some (p_tid (msg_type mt)) | None => None end)
-  | OCallSer k sr r _ dec c cb bh, BCall tr esc => demand (expect_ser (ss_built (s k)) sr r dec c) cb bh tr esc
-  | OCall k r a c cb bh, BCall tr esc => demand (expect_call (ss_built (s k)) r c a) cb bh tr esc
+      oz_eqb t (match resolve (ss_built (scol_of s k)) r with Some mt => Some (p_tid (msg_type mt)) | None => None end)
+  | OCallSer k sr r _ dec c cb bh, BCall tr esc => demand (expect_ser (ss_built (scol_of s k)) sr r dec c) cb bh tr esc
+  | OCall k r a c cb bh, BCall tr esc => demand (expect_call (ss_built (scol_of s k)) r c a) cb bh tr esc
   | ODispatch ks rid r _ dec _ cx bh, BDisp inv rsps _ esc =>
       demand_disp (builts s ks) rid r dec cx bh inv rsps esc
+  | OFire n kd, BFire d esc => demand_fire s n kd d esc
   | _, _ => false
   end.
 
@@ -305,8 +355,8 @@ Fixpoint monitor_from (s : sst) (ops : list op) (bs : list obs) : bool :=
 
 Definition op_f4 (s : sst) (o : op) : bool :=
   match o with
-  | OCallSer k sr r _ dec _ cb _ => f4_ser (ss_built (s k)) sr r dec cb
-  | OCall k r _ _ cb _ => f4_direct (ss_built (s k)) r cb
+  | OCallSer k sr r _ dec _ cb _ => f4_ser (ss_built (scol_of s k)) sr r dec cb
+  | OCall k r _ _ cb _ => f4_direct (ss_built (scol_of s k)) r cb
   | ODispatch ks rid r _ dec _ _ _ => f4_disp (builts s ks) rid r dec
   | _ => false
   end.
